@@ -182,3 +182,131 @@ Definition not_extendable (cur : list byte) : bool :=
          | None => true
          end
   end.
+
+(* ================================================================== additions of the audit round
+   (agent aud-rpc-host).  Nothing above was changed. *)
+
+(* ------------------------------------------------------------------ Go: decodeBigInt as it is in
+   the tree now (after the C12 repairs 8e4dc3012 / e2225d943): every multi-byte read is
+   io.ReadFull (a short read is an error) and only canonical encodings are accepted:
+     mode 1: value > 63; mode 2: value > 16383;
+     mode 3: most significant payload byte non-zero and BitLen > 30.
+   None = error. *)
+Definition dec_big_cur (l : list byte) : option N :=
+  match l with
+  | [] => None                                         (* ReadByte: io.EOF *)
+  | b :: r =>
+    let m := b2n b mod 4 in
+    if m =? 0 then Some (b2n b / 4)
+    else if m =? 1 then
+      match r with
+      | [] => None
+      | c :: _ => let x := le_val [b; c] / 4 in if x <=? 63 then None else Some x
+      end
+    else if m =? 2 then
+      match read_n true 3 r with
+      | None => None
+      | Some buf => let x := le_val (b :: buf) / 4 in if x <=? 16383 then None else Some x
+      end
+    else
+      match read_n true (N.to_nat (b2n b / 4 + 4)) r with
+      | None => None
+      | Some buf =>
+        let x := le_val buf in
+        if (b2n (last buf Byte.x00) =? 0) || (x <? two30) then None else Some x
+      end
+  end.
+
+(* ------------------------------------------------------------------ storageAppend over an
+   arbitrary length decoder [dec] (the scale.Unmarshal call); go_append strict is the instance
+   dec_big strict, go_append_cur the instance with the decoder now in the tree. *)
+Definition go_append_with (dec : list byte -> option N) (cur item : list byte) : list byte :=
+  match cur with
+  | [] => enc_big 1 ++ item
+  | _ =>
+    match dec cur with
+    | None => n2b 4 :: item
+    | Some n =>
+      let lb := enc_big n in
+      if (n <? u32_max) && is_prefix lb cur
+      then enc_big (n + 1) ++ skipn (length lb) cur ++ item
+      else n2b 4 :: item
+    end
+  end.
+
+Definition go_append_cur : list byte -> list byte -> list byte := go_append_with dec_big_cur.
+
+(* what storageAppend needs from the decoder: every canonical Compact<u32> length that can still be
+   incremented is decoded to its value, whatever follows it *)
+Definition dec_complete (dec : list byte -> option N) : Prop :=
+  forall n rest, n < u32_max -> dec (compact_u32_encode n ++ rest) = Some n.
+
+(* the same as a boolean on one input (used by the driver as property predicate of the cases that
+   call scale.Unmarshal directly): if the input starts with an extendable canonical length, the
+   decoder's answer [got] is that length *)
+Definition dec_complete_on (l : list byte) (got : option N) : bool :=
+  match compact_u32_decode l with
+  | Some (n, _) => if n <? u32_max then match got with Some g => g =? n | None => false end else true
+  | None => true
+  end.
+
+(* minimal big-endian magnitude, i.e. big.Int.Bytes() (for printing decoded lengths) *)
+Definition n_be_bytes (n : N) : list byte := be_bytes (byte_len n) n.
+
+(* ------------------------------------------------------------------ Go: ext_storage_append_version_1
+   The guest memory is a flat byte array of m_size bytes; only the window written by the harness is
+   non-zero.  A span is ptr | size<<32 (splitPointerSize); read() panics ("write overflow") unless
+   ptr + size <= len(memory) (wazero MemoryInstance.Read / hasSize). *)
+Record memory := { m_size : N; m_base : N; m_data : list byte }.
+
+Definition mem_get (m : memory) (i : N) : byte :=
+  if (m_base m <=? i) && (i <? m_base m + N.of_nat (length (m_data m)))
+  then nth (N.to_nat (i - m_base m)) (m_data m) Byte.x00 else Byte.x00.
+
+Definition span_ptr (s : N) : N := s mod two32.        (* uint32(pointerSize) *)
+Definition span_size (s : N) : N := (s / two32) mod two32.  (* pointerSize >> 32 of a uint64 *)
+
+Definition mem_read (m : memory) (span : N) : outcome (list byte) :=
+  let p := span_ptr span in
+  let n := span_size span in
+  if p + n <=? m_size m
+  then Ok (map (fun i => mem_get m (p + N.of_nat i)) (seq 0 (N.to_nat n)))
+  else Panic.
+
+(* runtime.Storage as the host function sees it: Get (nil = empty for an absent key) and Put *)
+Definition store := list (list byte * list byte).
+Fixpoint st_get (s : store) (k : list byte) : list byte :=
+  match s with
+  | [] => []
+  | (k', v) :: r => if bytes_eqb k k' then v else st_get r k
+  end.
+Fixpoint st_put (s : store) (k v : list byte) : store :=
+  match s with
+  | [] => [(k, v)]
+  | (k', v') :: r => if bytes_eqb k k' then (k, v) :: r else (k', v') :: st_put r k v
+  end.
+
+(* read(key span); read(value span); copy; storageAppend; (the memory is not written) *)
+Definition host_append_with (dec : list byte -> option N) (m : memory) (kspan vspan : N) (s : store)
+  : outcome store :=
+  match mem_read m kspan with
+  | Ok key =>
+    match mem_read m vspan with
+    | Ok item => Ok (st_put s key (go_append_with dec (st_get s key) item))
+    | _ => Panic
+    end
+  | _ => Panic
+  end.
+Definition host_append : memory -> N -> N -> store -> outcome store := host_append_with dec_big_cur.
+
+(* the specification of the host call: the value under the key read from guest memory becomes
+   substrate_append of the old value (absent = empty) and the item read from guest memory *)
+Definition spec_host_append (s : store) (key item : list byte) : store :=
+  st_put s key (substrate_append (st_get s key) item).
+
+(* coverage bucket of the driver: extending this value makes the length prefix wider *)
+Definition prefix_grows (cur : list byte) : bool :=
+  match compact_u32_decode cur with
+  | Some (n, _) => (n <? u32_max) && negb (compact_len (n + 1) =? compact_len n)%nat
+  | None => false
+  end.
